@@ -394,3 +394,58 @@ theorem order_independent_above : exSummary (run (exOrdFs exAbove) [109]) = some
   decide +kernel
 
 end Trion.Asm
+
+namespace Trion.Asm
+open Trion
+
+/-! ### K5: after the repair of K4 the full-strength statement is STILL false -/
+
+/-- the operand of `LDR r2, [(0 - ((0 - r0) - r1)) * x]` as the parser delivers it -/
+def exOrder5 : Arg :=
+  .addr (.bin .mul (.bin .sub (.const 0) (.bin .sub (.bin .sub (.const 0) (.ident [114, 48])) (.ident [114, 49])))
+    (.ident [120]))
+
+/-- C08 FINDING K5 (witness, on the code with the K4 repair)  `LDR r2, [(0 - ((0 - r0) - r1)) * x]` with `x = 1`:
+`neutralize_raw` turns `0 - (-r0 - r1)` into `-(-r0 - r1)` (its `0 - rhs ↦ -rhs` rule does not swap a difference), which
+is not a fixed point of `evaluate`.  Defined ABOVE: the fresh evaluation keeps it through `* 1` and the address reader
+refuses it (`ValueRange`, argument #3).  Defined BELOW: the first attempt leaves `[-(-r0 - r1) * x]`, the re-run evaluates
+the left operand once more — the `Negate` arm swaps to `r1 - (-r0)` and neutralizes to `r1 + r0` — and completes with
+`LDR r2, [r1, r0]`.  Replayed on the real assembler (/repo 4f59ec4): `0a 58` / "argument #3 for LDR is out of range". -/
+theorem order_dependent_witness5 :
+    (∃ fs1, Front.build 0 [76, 68, 82] [.ident [114, 50], exOrder5] (frontEval []) true = .deferred [120] fs1 ∧
+      fs1.args = [.ident [114, 50],
+        .addr (.bin .mul (.neg (.bin .sub (.neg (.ident [114, 48])) (.ident [114, 49]))) (.ident [120]))] ∧
+      ∃ fs2, Front.assemble fs1 (frontEval [([120], some 1)]) false = (fs2, .completed) ∧
+        fs2.instr = .ldr 2 1 (.reg 0)) ∧
+    (∃ st, Front.build 0 [76, 68, 82] [.ident [114, 50], exOrder5] (frontEval [([120], some 1)]) true =
+      .error (.valueRange 2) st) ∧
+    leftStableArgB [] [([120], some 1)] exOrder5 = false :=
+  ⟨⟨_, rfl, rfl, _, rfl, rfl⟩, ⟨_, rfl⟩, rfl⟩
+
+/-- C08 FINDING K5  The full-strength statement-level property does not hold on the code with the K4 repair either. -/
+theorem stmt_outcome_order_independent_full_false :
+    ¬ (∀ (t₁ t₂ : Table) (addr : Nat) (name : Bytes) (args : List Arg) (c : Bytes) (fs1 : Front.St),
+        Table.Sub t₁ t₂ → Table.NoDef t₁ → Front.build addr name args (frontEval t₁) true = .deferred c fs1 →
+        ∀ i : Instr, (∃ fs2, Front.assemble fs1 (frontEval t₂) false = (fs2, .completed) ∧ fs2.instr = i) ↔
+          Front.build addr name args (frontEval t₂) true = .completed i) := by
+  intro h
+  obtain ⟨⟨fs1, hb, _, fs2, ha, hi⟩, ⟨st, he⟩, _⟩ := order_dependent_witness5
+  have := (h [] [([120], some 1)] 0 [76, 68, 82] [.ident [114, 50], exOrder5] [120] fs1
+    (fun _ _ h => by simp [Table.find] at h) (fun _ h => by simp [Table.find] at h) hb (.ldr 2 1 (.reg 0))).1
+    ⟨fs2, ha, hi⟩
+  rw [he] at this
+  cases this
+
+def exBelow5 : Bytes := bytesOf ".addr 0x20000000;\nLDR r2, [(0 - ((0 - r0) - r1)) * x];\n.const x, 1;\n"
+def exAbove5 : Bytes := bytesOf ".addr 0x20000000;\n.const x, 1;\nLDR r2, [(0 - ((0 - r0) - r1)) * x];\n"
+
+/-- K5 on the whole-pipeline model: `x` defined BELOW — the project assembles, image `0a 58` (`LDR r2, [r1, r0]`) -/
+theorem order_dependent_below5 : exSummary (run (exOrdFs exBelow5) [109]) = some (true, 0, [(536870912, [10, 88])]) := by
+  decide +kernel
+
+/-- K5: `x` defined ABOVE — diagnosed twice, placeholder left in the image, run fails -/
+theorem order_dependent_above5 :
+    exSummary (run (exOrdFs exAbove5) [109]) = some (false, 2, [(536870912, [190, 190])]) := by
+  decide +kernel
+
+end Trion.Asm
